@@ -21,6 +21,7 @@ import (
 type c06Crash struct {
 	At         int         `json:"at"`
 	Landed     bool        `json:"landed"`
+	Lost       bool        `json:"lost,omitempty"` // the write landed and reported a failure; the process went on
 	LandedMeta int         `json:"landedmeta"`
 	OpErr      bool        `json:"operr"`
 	Listed     []string    `json:"listed"`
@@ -216,12 +217,22 @@ func c06Run(cs *c06Case, r *gen.Rand) {
 	sort.Ints(ps)
 	cs.Crashes = nil
 	for _, at := range ps {
-		for _, landed := range []bool{false, true} {
+		isMeta := false
+		for _, p := range metaCalls {
+			isMeta = isMeta || p == at
+		}
+		for variant := 0; variant < 3; variant++ {
+			landed, lost := variant >= 1, variant == 2
+			if lost && (!isMeta || cs.Kind == "commit") {
+				// a response lost on a metadata write of an upload or a label assignment (a commit reacts to a failed
+				// write by rolling the diamond back, which is judged by C12)
+				continue
+			}
 			w := base.Clone()
-			c := &memstore.Crash{At: at, Landed: landed}
+			c := &memstore.Crash{At: at, Landed: landed, Lost: lost}
 			wrapAll(w, c)
 			err := op(w)
-			co := c06Crash{At: at, Landed: landed, OpErr: err != nil}
+			co := c06Crash{At: at, Landed: landed, Lost: lost, OpErr: err != nil}
 			for _, t := range c.Trace {
 				if strings.HasPrefix(t, "meta:") || strings.HasPrefix(t, "vmeta:") {
 					co.LandedMeta++
@@ -450,7 +461,7 @@ func init() {
 		c.CaseTy = "acase"
 		c.Report = "report"
 		c.PerFile = 2
-		c.Rule = "histories of 0..3 committed bundles and labels, then a bundle upload, a label assignment or the commit of a diamond with one or two completed splits interrupted at every mutating store call (blob and metadata stores; before and after the call lands) - all calls for small trees, every metadata write plus sampled blob writes for a 1001-file tree with two file lists; after each crash a restarted process lists bundles, resolves the latest bundle, lists labels, downloads every previously committed bundle and the new one, retries the operation, retries an interrupted upload under the same bundle id with other content of the same shape, lists the bundles again page by page after the retry; two uploads under one preserved bundle id, one run to completion just before each metadata write of the other; label assignments also move existing labels; non-trivial = crash point at which the operation had written at least one object, distinct by case and crash point"
+		c.Rule = "histories of 0..3 committed bundles and labels, then a bundle upload, a label assignment or the commit of a diamond with one or two completed splits interrupted at every mutating store call (blob and metadata stores; before and after the call lands; for metadata writes of uploads and label assignments also with the write landing, its response lost and the process going on) - all calls for small trees, every metadata write plus sampled blob writes for a 1001-file tree with two file lists; after each crash a restarted process lists bundles, resolves the latest bundle, lists labels, downloads every previously committed bundle and the new one, retries the operation, retries an interrupted upload under the same bundle id with other content of the same shape, lists the bundles again page by page after the retry; two uploads under one preserved bundle id, one run to completion just before each metadata write of the other; label assignments also move existing labels; non-trivial = crash point at which the operation had written at least one object, distinct by case and crash point"
 		emit := func(cs *c06Case) {
 			n := 0
 			for _, co := range cs.Crashes {
